@@ -334,6 +334,7 @@ impl RecvHalf {
 }
 
 /// client side of one request
+#[allow(dead_code)]
 struct ClientReq {
     idx: usize,
     req_head: Option<(Request<()>, bool)>,
@@ -357,6 +358,7 @@ struct ClientPushed {
 }
 
 /// server side of one accepted stream
+#[allow(dead_code)]
 struct ServerStream {
     sid: u32,
     respond: Option<server::SendResponse<Bytes>>,
